@@ -16,7 +16,7 @@ for d in seeded/*/; do
   prop=$(python3 -c "import json;print(json.load(open('$d/meta.json'))['property'])")
   W=/tmp/sweep.$$; git -C /repo worktree remove --force $W >/dev/null 2>&1; git -C /repo worktree add -q --detach $W HEAD
   if ! git -C $W apply /verif/$d/patch.diff 2>/dev/null; then echo "| $n | $prop | patch does not apply | |"; git -C /repo worktree remove --force $W; continue; fi
-  o=$(VERIF_REPO=$W VERIF_MINIMISE=2s timeout 1500 ./check $prop quick 2>&1); rc=$?
+  o=$(VERIF_OUT=/tmp/expout VERIF_REPO=$W VERIF_MINIMISE=2s timeout 1500 ./check $prop quick 2>&1); rc=$?
   git -C /repo worktree remove --force $W >/dev/null 2>&1
   cls=$(echo "$o" | grep "^  class=" | sed 's/^  class=\([^ ]*\).*/\1/' | sort -u | tr '\n' ' ')
   echo "| $n | $prop | $rc | $cls |"
